@@ -3,6 +3,7 @@ package main
 import (
 	"fmt"
 	"go/token"
+	"go/types"
 
 	"golang.org/x/tools/go/packages"
 	"golang.org/x/tools/go/ssa"
@@ -39,8 +40,11 @@ func c11ClosureAlwaysWalked(c *Ctx) {
 		}
 		var walks []*ssa.Function
 		for _, call := range callsIn(f) {
-			if sc := call.Call.StaticCallee(); sc != nil && recursive[sc] && sc.Signature.Results().Len() > 0 && !isErrorType(sc.Signature.Results().At(0).Type()) {
-				walks = append(walks, sc)
+			if sc := call.Call.StaticCallee(); sc != nil && recursive[sc] && sc.Signature.Results().Len() > 0 {
+				// a walk that assembles a list (recursive predicates such as "does a publicly import b" are not walks)
+				if _, isSlice := sc.Signature.Results().At(0).Type().Underlying().(*types.Slice); isSlice {
+					walks = append(walks, sc)
+				}
 			}
 		}
 		if len(walks) == 0 {
